@@ -30,7 +30,7 @@ Definition arith_value (o : opname) (vs : list value) : option f64 :=
   | OAdd => option_map (fun xs => fold_left f64_add xs f64_zero) (convert_all es_parse_float vs)
   | OMul => option_map (fun xs => fold_left f64_mul xs f64_one) (convert_all es_parse_float vs)
   | OSub => match convert_all es_to_number vs with
-            | Some [x] => Some (f64_neg x)
+            | Some [x] => Some (f64_mul f64_minus_one x)     (* negation: the exact product with -1 *)
             | Some [x; y] => Some (f64_sub x y)
             | _ => None
             end
@@ -98,7 +98,9 @@ Definition rel_spec (o : opname) (a b : value) : bool :=
 Definition merge_spec (vs : list value) : list value :=
   flat_map (fun v => match v with Arr l => l | _ => [v] end) vs.
 
-(** deep equality: numbers by numeric value, objects as maps (sorted, so pairwise) *)
+(** deep equality: numbers by numeric value whatever their spelling, arrays element by element,
+    objects as maps (same size, every key of one bound in the other to an equal value - so the
+    order of keys is irrelevant) *)
 Fixpoint json_eq (a b : value) {struct a} : bool :=
   match a, b with
   | Null, Null => true
@@ -106,19 +108,20 @@ Fixpoint json_eq (a b : value) {struct a} : bool :=
   | Num x, Num y => f64_eqb (as_f64 x) (as_f64 y)
   | Str x, Str y => str_eqb x y
   | Arr x, Arr y =>
+      Nat.eqb (length x) (length y) &&
       (fix go (x y : list value) {struct x} : bool :=
          match x, y with
-         | [], [] => true
          | a' :: x', b' :: y' => json_eq a' b' && go x' y'
-         | _, _ => false
+         | _, _ => true
          end) x y
   | Obj x, Obj y =>
-      (fix go (x y : list (str * value)) {struct x} : bool :=
-         match x, y with
-         | [], [] => true
-         | (k, a') :: x', (k', b') :: y' => str_eqb k k' && json_eq a' b' && go x' y'
-         | _, _ => false
-         end) x y
+      Nat.eqb (length x) (length y) &&
+      (fix go (x : list (str * value)) {struct x} : bool :=
+         match x with
+         | [] => true
+         | (k, a') :: x' =>
+             (match obj_get y k with Some b' => json_eq a' b' | None => false end) && go x'
+         end) x
   | _, _ => false
   end.
 
@@ -135,7 +138,7 @@ Fixpoint is_infix (needle hay : str) : bool :=
 Definition in_spec (needle hay : value) : outcome value :=
   match hay with
   | Str h => match needle with Str n => Ok (Bool (is_infix n h)) | _ => Err InvalidArgument end
-  | Arr l => Ok (Bool (existsb (json_eq needle) l))
+  | Arr l => Ok (Bool (existsb (fun p => json_eq p needle) l))
   | Null => Ok (Bool false)
   | _ => Err InvalidArgument
   end.
